@@ -27,7 +27,7 @@ RULE = ('C03-style histories on Cache / FanoutCache in which handle events are i
         'distinct_nontrivial = distinct (container, event kind, position class) cells + golden (directory, key type, '
         'value mode) cells')
 DISTINCT = ('event_cells', 'golden_cells')
-REQUIRED = ('handles_opened_by_spelling_4', 'handles_opened_by_spelling_5', 'calls_judged', 'events_close', 'events_second_handle', 'events_pickle', 'events_thread', 'events_process',
+REQUIRED = ('events_second_handle_during_a_call', 'handles_opened_by_spelling_4', 'handles_opened_by_spelling_5', 'calls_judged', 'events_close', 'events_second_handle', 'events_pickle', 'events_thread', 'events_process',
             'events_fork', 'events_reset', 'events_opened_under_exclusive_lock', 'rollback_journal_histories', 'settings_read_back', 'fanout_histories', 'deque_events', 'index_events', 'django_events',
             'golden_items_read', 'golden_rows_compared', 'golden_schema_compared', 'jsondisk_histories')
 ASSUMPTIONS = ('the Disk class is a constructor argument, not a stored setting: non-pickle reopen events pass the same '
@@ -257,10 +257,18 @@ def cache_history(dc, sc, res, rng, kind, label):
             drv.real = gen.pick(rng, handles)
             if rng.random() < 0.12:
                 ev = gen.pick(rng, ['close', 'second', 'pickle', 'thread', 'process', 'fork', 'close', 'second_locked',
-                                    'reset'])
+                                    'reset', 'second_during_call'])
                 pos = 'early' if i < len(steps) / 3 else 'late' if i > 2 * len(steps) / 3 else 'middle'
                 res.seen('event_cells', (kind, ev, pos))
                 drv.history.append(('EVENT', (ev,), {}))
+                if ev == 'second_during_call':
+                    # (only where the call can wait cooperatively: write-ahead log, so that lookups are never blocked,
+                    # and a call that takes retry=True or retries by itself)
+                    from ..driver import SIGNATURES
+                    waits = (op in SIGNATURES and SIGNATURES[op][1][-1][0] == 'retry') or op in (
+                        'setitem', 'getitem', 'delitem', 'contains', 'len')
+                    if settings.get('sqlite_journal_mode', 'wal') != 'wal' or not waits:
+                        ev = 'second'
                 if ev == 'close':
                     drv.real.close()
                     res.count('events_close')
@@ -269,6 +277,41 @@ def cache_history(dc, sc, res, rng, kind, label):
                     handles.append(h)
                     check_settings(h, 'a second object opened with no settings')
                     res.count('events_second_handle')
+                elif ev == 'second_during_call':
+                    # a handle is opened by another thread while this call of the history is in flight (the two are
+                    # interleaved statement by statement by the schedule fuzzer): opening reads and writes nothing but
+                    # its own settings, so the call, the table and the counters come out as if it had not happened
+                    from ..sched import Sched
+                    sch = Sched(rng, clock, strategy=rng.choice(['random', 'random', 'preempt']), max_steps=30000,
+                                preempt_points={rng.randrange(0, 80) for _ in range(3)})
+                    box, opened = [], []
+                    caller = fresh(timeout=0)
+                    handles.append(caller)
+                    drv.real = caller
+                    ckw = dict(kw, retry=True) if op in SIGNATURES else kw
+
+                    def the_call():
+                        try:
+                            drv.step(op, *args, **ckw)
+                        except BaseException as exc:      # noqa: BLE001
+                            box.append(exc)
+
+                    def the_open():
+                        opened.append(fresh(timeout=0))
+                    done = sch.run([the_call, the_open])
+                    probe.set_controller(None)
+                    handles.extend(opened)
+                    if box:
+                        raise box[0]
+                    errs = sch.errors()
+                    if errs or not done or not opened:
+                        raise Mismatch('a handle could not be opened while a call was in flight: %s' % (
+                            errs[0][1][1][-300:] if errs else 'schedule did not finish'), drv.witness())
+                    res.count('events_second_handle_during_a_call')
+                    res.count('calls_judged')
+                    res.count('evaluations')
+                    check_settings(opened[0], 'an object opened while a call was in flight')
+                    continue
                 elif ev == 'second_locked':
                     # a handle is opened while the database files are locked against readers too - from the start, or
                     # from one of the statements of the opening sequence on; the lock goes away after the second or
